@@ -17,7 +17,7 @@ PROPERTIES_V = 'theories/C05/Properties.v'
 IMPORTS = 'Require Import FV.Base.F64 FV.Base.PyVal FV.C01.Model FV.Gen.C05 FV.C05.Model FV.C05.Run.'
 CASE_TYPE = 'case'
 CHECK = 'check_case'
-SHARD_SIZE = 150
+SHARD_SIZE = 100
 RULE = ('a case = 1..2 real modules with 1..4 parameters drawn from a catalogue of 9 datatypes (double limited/unlimited, int, '
         'bool, enum, string, array of int, struct, tuple), each with its own export / update_unchanged setting '
         '(always, never, default through module or general setting, explicit interval) and initial state (default, value, '
@@ -597,6 +597,12 @@ def oracle(case, obs):
                     fail('stale-error-text' if only_text else ('recovery-not-announced' if prev_err and not cur_err
                                                                else 'change-not-announced'),
                          f'connection {ci} parameter {p}: after op {opi} the cache went {prev} -> {cur} without a message', p=p, op=opi)
+                # a wrapped read_/write_ that returned normally (and not Done) IS a recovery: it must be announced
+                op = case['threads'][0][opi]
+                if (prev_err and not sent and op['p'] == p and op['k'] in ('read', 'write') and obs['results'][0][opi] == 'ok'
+                        and (op.get('res') or ['ret'])[0] != 'done'):
+                    fail('recovery-not-announced', f'connection {ci} parameter {p}: op {opi} ({op["k"]}) succeeded on a parameter '
+                         f'in error state {prev} but no update was sent', p=p, op=opi)
                 prev, prev_err = cur, cur_err
     return fails
 
@@ -860,7 +866,7 @@ def _run_for_steps(case):
 
 def gen_cases(seed, tier):
     rng = random.Random(f'C05-{seed}-{tier}')
-    n1, n2, nsys, lim = {'quick': (1400, 350, 3, 50), 'thorough': (24000, 5000, 30, 400),
+    n1, n2, nsys, lim = {'quick': (1200, 300, 3, 50), 'thorough': (8000, 1600, 10, 150),
                           'search': (6000, 2500, 10, 200)}[tier]
     cases = [rand_case(rng, 1) for _ in range(n1)]
     cases += [rand_case(rng, rng.choice([2, 2, 3])) for _ in range(n2)]
